@@ -31,6 +31,7 @@ def c01(ctx):
                 "schemas, two levels) x every document of DocsCore, each in 3 spellings; a case is non-trivial when "
                 "its allowed set is not {ok null} and the expression has >= 2 nodes; distinct by (source text, document)")
     eval_family(ctx, "C01", {Q: (12, 4001), T: (1, 211)})
+    C.trace_api(ctx, {"outcome", "compile-rejected"}, n=600 if ctx.tier == Q else 6000)
     ctx.exhaustive = False
 
 
@@ -50,7 +51,8 @@ def c02(ctx):
                 "multi-select, function argument) x documents with empty / heterogeneous / null-containing arrays and objects; " + NT_DEFAULT)
     eval_family(ctx, "C02", {Q: (7, 1), T: (1, 1)})
     negative(ctx, "C02", "PresizedWildcard", (3, 1))
-    ctx.exhaustive = ctx.tier == T
+    C.trace_api(ctx, {"outcome", "compile-rejected"}, n=600 if ctx.tier == Q else 6000)
+    ctx.exhaustive = False
 
 
 def c07(ctx):
@@ -109,6 +111,7 @@ def c04(ctx):
     gen_parse(ctx, "mutants", "C02", 0, (150, 1) if quick else (7, 1))
     gen_parse(ctx, "mutants", "C01", 0, (600, 4000000) if quick else (11, 100000))
     gen_parse(ctx, "mutants", "C09n", 0, (12, 1) if quick else (1, 1))
+    C.trace_api(ctx, {"compile-accepted", "compile-rejected"}, n=800 if quick else 8000)
     ctx.exhaustive = False
 
 
@@ -270,7 +273,8 @@ def c13(ctx):
                                        "parser-reuse", "parser-expect"}, canary_every=997)
     eval_family(ctx, "C09n", {Q: (2, 1), T: (1, 1)}, cats=("outcome", "panic", "oneshot"), mc=False, oneshot=True)
     eval_family(ctx, "C02", {Q: (29, 1), T: (3, 1)}, cats=("outcome", "panic", "oneshot"), mc=False, oneshot=True)
-    ctx.exhaustive = True
+    C.trace_api(ctx, {"outcome"}, n=400 if quick else 4000)   # every corpus expression is searched twice on one handle
+    ctx.exhaustive = False
 
 
 PANIC_CATS = ("panic", "compile-panic", "timeout", "compile-timeout")
@@ -365,6 +369,7 @@ def c06(ctx):
     eval_family(ctx, "C11", {Q: (2, 9), T: (1, 1)}, cats=cats, mc=False)
     eval_family(ctx, "C02", {Q: (31, 1), T: (2, 1)}, cats=cats, mc=False)
     eval_family(ctx, "C08", {Q: (23, 1), T: (2, 1)}, cats=cats, mc=False)
+    C.trace_api(ctx, {"docmod"}, n=800 if ctx.tier == Q else 8000)
     ctx.exhaustive = False
 
 
@@ -389,6 +394,7 @@ def c09(ctx):
                 "distinct by (source text, document)")
     eval_family(ctx, "C09", {Q: (3, 1), T: (1, 1)})
     eval_family(ctx, "C09n", {Q: (1, 1), T: (1, 1)})
+    C.trace_api(ctx, {"outcome"}, n=800 if ctx.tier == Q else 8000)
     if ctx.tier == T:
         negative(ctx, "C09", "AvgEmptyNaN")
     ctx.exhaustive = ctx.tier == T
